@@ -15,7 +15,7 @@ pub fn def() -> PropDef {
         job_level,
         run_job,
         replay,
-        rule: "configs: ALL 10^4 assignments of a 10-entry fragment menu {key, output chord, (multi mod key), (multi mod _), XX, _, use-defsrc, (layer-while-held other), (layer-switch other), (multi (release-key lctl) (release-layer other))} to 2 layers x 2 keys (defcfg variant rotated over {layer-stack,to-base-layer} x delegate-to-first-layer {no,yes} in quick; all 4 variants in thorough) + curated 3-4 layer configs (stacked held layers, transparent chains, nested _ in multi, release-key/layer across layers) x all 4 variants. Histories: ALL physically consistent histories of D steps over {press/release of the mapped keys, tick 1, tick 2} (gaps 0,1,2), then released and settled. Oracle: reference model LayeredKeymap (FIFO queue, one event per tick; press = search held layers newest to oldest, default layer, optional first layer, defsrc, continuing below a nested _; release removes what that coordinate put down; output = ordered diff of the key list per tick) compared with the real output trace event by event with tick stamps. states = distinct (real digest) ; traces_validated = executions compared.",
+        rule: "configs: ALL 10^4 assignments of a 10-entry fragment menu {key, output chord, (multi mod key), (multi mod _), XX, _, use-defsrc, (layer-while-held other), (layer-switch other), (multi (release-key lctl) (release-layer other))} to 2 layers x 2 keys (defcfg variant rotated over {layer-stack,to-base-layer} x delegate-to-first-layer {no,yes} in quick; all 4 variants in thorough) + curated 3-4 layer configs (stacked held layers, transparent chains, nested _ in multi, release-key/layer across layers) x all 4 variants. Unmapped-key variants: a further key that is NOT in defsrc with process-unmapped-keys yes (must behave as mapped to itself on every layer) and with block-unmapped-keys yes (must produce nothing in every layer state): every sixth 2x2 config in quick, all in thorough, all curated configs (one step less deep). Histories: ALL physically consistent histories of D steps over {press/release of the mapped keys, tick 1, tick 2} (gaps 0,1,2), then released and settled. Oracle: reference model LayeredKeymap (FIFO queue, one event per tick; press = search held layers newest to oldest, default layer, optional first layer, defsrc, continuing below a nested _; release removes what that coordinate put down; output = ordered diff of the key list per tick) compared with the real output trace event by event with tick stamps. states = distinct (real digest) ; traces_validated = executions compared.",
         assumptions: &[
             "fragment only: plain keys, output chords, multi, XX, _, use-defsrc, layer-while-held, layer-switch, release-key/layer",
             "fewer than 32 pending events (no queue overflow in this check)",
@@ -171,8 +171,8 @@ impl Model {
 // ------------------------------------------------------------------------------------------
 // configs
 
-const KEYS: [&str; 3] = ["a", "b", "c"];
-const SRC_NAMES: [&str; 3] = ["A", "B", "C"];
+const KEYS: [&str; 4] = ["a", "b", "c", "d"];
+const SRC_NAMES: [&str; 4] = ["A", "B", "C", "D"];
 
 /// (config text, model action) for menu entry `m` on layer `l` of an `nl`-layer config.
 fn menu(m: usize, l: usize, nl: usize) -> (String, Act) {
@@ -201,14 +201,26 @@ struct CfgSpec {
     cells: Vec<Vec<(String, Act)>>,
     v2: bool,
     delegate: bool,
+    /// 0 = every key is in defsrc; 1 = one further key (KEYS[nkeys]) is NOT in defsrc and
+    /// process-unmapped-keys is on (it must behave as mapped to itself on every layer);
+    /// 2 = additionally block-unmapped-keys: it must produce nothing, whatever the layer state
+    unmapped: u8,
 }
 
 impl CfgSpec {
+    fn n_input_keys(&self) -> usize {
+        self.nkeys + if self.unmapped > 0 { 1 } else { 0 }
+    }
     fn text(&self) -> String {
         let mut s = format!(
-            "(defcfg transparent-key-resolution {} delegate-to-first-layer {})\n(defsrc",
+            "(defcfg transparent-key-resolution {} delegate-to-first-layer {}{})\n(defsrc",
             if self.v2 { "layer-stack" } else { "to-base-layer" },
-            if self.delegate { "yes" } else { "no" }
+            if self.delegate { "yes" } else { "no" },
+            match self.unmapped {
+                0 => "",
+                1 => " process-unmapped-keys yes",
+                _ => " process-unmapped-keys yes block-unmapped-keys yes",
+            }
         );
         for k in &KEYS[..self.nkeys] {
             s += &format!(" {k}");
@@ -224,7 +236,17 @@ impl CfgSpec {
         s
     }
     fn model(&self) -> Model {
-        Model::new(self.cells.iter().map(|r| r.iter().map(|(_, a)| a.clone()).collect()).collect(), SRC_NAMES[..self.nkeys].to_vec(), self.v2, self.delegate)
+        let extra = match self.unmapped {
+            0 => None,
+            1 => Some(Act::Trans),
+            _ => Some(Act::NoOp),
+        };
+        Model::new(
+            self.cells.iter().map(|r| r.iter().map(|(_, a)| a.clone()).chain(extra.clone()).collect()).collect(),
+            SRC_NAMES[..self.n_input_keys()].to_vec(),
+            self.v2,
+            self.delegate,
+        )
     }
 }
 
@@ -249,7 +271,10 @@ fn curated() -> Vec<CfgSpec> {
     for (tag, cells) in shapes {
         for v2 in [true, false] {
             for delegate in [false, true] {
-                v.push(CfgSpec { tag: format!("curated/{tag}/{}{}", if v2 { "stack" } else { "base" }, if delegate { "+deleg" } else { "" }), nkeys: 3, cells: cells.clone(), v2, delegate });
+                v.push(CfgSpec { tag: format!("curated/{tag}/{}{}", if v2 { "stack" } else { "base" }, if delegate { "+deleg" } else { "" }), nkeys: 3, cells: cells.clone(), v2, delegate, unmapped: 0 });
+                for unmapped in [1u8, 2] {
+                    v.push(CfgSpec { tag: format!("curated/{tag}/{}{}/unmapped{unmapped}", if v2 { "stack" } else { "base" }, if delegate { "+deleg" } else { "" }), nkeys: 3, cells: cells.clone(), v2, delegate, unmapped });
+                }
             }
         }
     }
@@ -284,7 +309,12 @@ fn jobs(tier: Tier) -> &'static Vec<Job> {
                             let cells = vec![vec![menu(m00, 0, 2), menu(m01, 0, 2)], vec![menu(m10, 1, 2), menu(m11, 1, 2)]];
                             let variants: Vec<(bool, bool)> = if all_variants { vec![(true, false), (true, true), (false, false), (false, true)] } else { vec![[(true, false), (true, true), (false, false), (false, true)][ci % 4]] };
                             for (v2, delegate) in variants {
-                                v.push(Job { spec: CfgSpec { tag: format!("2x2/{m00}{m01}{m10}{m11}"), nkeys: 2, cells: cells.clone(), v2, delegate }, depth: d_small, level: lvl });
+                                v.push(Job { spec: CfgSpec { tag: format!("2x2/{m00}{m01}{m10}{m11}"), nkeys: 2, cells: cells.clone(), v2, delegate, unmapped: 0 }, depth: d_small, level: lvl });
+                                // a key outside defsrc: every third config in quick (rotating process / process+block), all in thorough
+                                let um: Vec<u8> = if all_variants { vec![1, 2] } else if ci % 6 == 0 { vec![1 + ((ci / 6) % 2) as u8] } else { vec![] };
+                                for unmapped in um {
+                                    v.push(Job { spec: CfgSpec { tag: format!("2x2u{unmapped}/{m00}{m01}{m10}{m11}"), nkeys: 2, cells: cells.clone(), v2, delegate, unmapped }, depth: d_small, level: lvl });
+                                }
                             }
                             ci += 1;
                         }
@@ -292,7 +322,9 @@ fn jobs(tier: Tier) -> &'static Vec<Job> {
                 }
             }
             for spec in curated() {
-                v.push(Job { spec, depth: d_cur, level: lvl });
+                // the variants with a key outside defsrc have a larger alphabet: one step less
+                let depth = if spec.unmapped > 0 { d_cur - 1 } else { d_cur };
+                v.push(Job { spec, depth, level: lvl });
             }
         }
         v
@@ -395,7 +427,7 @@ fn run_job(tier: Tier, idx: usize, st: &mut Stats) {
         return;
     }
     st.configs_accepted += 1;
-    let alpha = alphabet(j.spec.nkeys);
+    let alpha = alphabet(j.spec.n_input_keys());
     let mut found: Vec<Violation> = vec![];
     for_each_history(&alpha, j.depth, Consistency::Physical, &[], |h, first_new, down| {
         if found.len() >= 2 {
